@@ -88,10 +88,18 @@ pub(crate) trait TranscriptProtocol {
 
 impl TranscriptProtocol for Transcript {
     fn append_commitment(&mut self, label: &'static [u8], comm: &Commitment) {
+        #[cfg(feature = "verif")]
+        crate::verif::trace_transcript_op(
+            "commitment",
+            label,
+            &comm.0.to_bytes(),
+        );
         self.append_message(label, &comm.0.to_bytes());
     }
 
     fn append_scalar(&mut self, label: &'static [u8], s: &BlsScalar) {
+        #[cfg(feature = "verif")]
+        crate::verif::trace_transcript_op("scalar", label, &s.to_bytes());
         self.append_message(label, &s.to_bytes())
     }
 
@@ -99,10 +107,25 @@ impl TranscriptProtocol for Transcript {
         let mut buf = [0u8; 64];
         self.challenge_bytes(label, &mut buf);
 
+        #[cfg(feature = "verif")]
+        crate::verif::trace_transcript_op(
+            "challenge",
+            label,
+            &BlsScalar::from_bytes_wide(&buf).to_bytes(),
+        );
         BlsScalar::from_bytes_wide(&buf)
     }
 
     fn circuit_domain_sep(&mut self, n: u64) {
+        #[cfg(feature = "verif")]
+        {
+            crate::verif::trace_transcript_op(
+                "message",
+                b"dom-sep",
+                b"circuit_size",
+            );
+            crate::verif::trace_transcript_op("u64", b"n", &n.to_le_bytes());
+        }
         self.append_message(b"dom-sep", b"circuit_size");
         self.append_u64(b"n", n);
     }
@@ -119,6 +142,8 @@ impl TranscriptProtocol for Transcript {
 
         let label = transcript_label_static(label);
 
+        #[cfg(feature = "verif")]
+        crate::verif::trace_transcript_op("new", label, &[]);
         let mut transcript = Transcript::new(label);
 
         transcript.circuit_domain_sep(constraints as u64);
@@ -135,6 +160,8 @@ impl TranscriptProtocol for Transcript {
     ) -> Self {
         let label = transcript_label_static(label);
 
+        #[cfg(feature = "verif")]
+        crate::verif::trace_transcript_op("new", label, &[]);
         let mut transcript = Transcript::new(label);
 
         transcript.circuit_domain_sep(constraints as u64);
